@@ -464,11 +464,16 @@ class LockAnalysis:
             ex = self.summ.get((fn, lk))
             if ex:
                 outs = []
+                seen_states = set()
                 for s in sorted(ex):
+                    # an unbalanced exit of the callee is reported at the callee (R-LOCK-BAL, local before global); the caller goes on
+                    # as if it were balanced, otherwise one root cause floods every function above it
+                    s2 = s if s in (lk, 'F') else lk
+                    if s2 in seen_states:
+                        continue
+                    seen_states.add(s2)
                     e = env.copy()
-                    e.ts['lock'] = s
-                    if s == 'U' and lk == 'L':
-                        e.ts['win'] = 1
+                    e.ts['lock'] = s2
                     outs.append(apply_generic(ev, e))
                 return outs
         return None
